@@ -107,6 +107,28 @@ export function stripSource(diff: IDiffEntry[] | null): IDiffEntry[] | null {
 }
 
 /**
+ * Index into `s` (in UTF-16 code units, what string slicing uses) of its
+ * n-th character: the positions in a diff made by the server count
+ * characters (code points), and characters outside the Basic
+ * Multilingual Plane take two code units here.
+ */
+function codePointOffset(s: string, n: number): number {
+  let i = 0;
+  while (n > 0 && i < s.length) {
+    let c = s.charCodeAt(i);
+    let pair =
+      c >= 0xd800 &&
+      c <= 0xdbff &&
+      i + 1 < s.length &&
+      s.charCodeAt(i + 1) >= 0xdc00 &&
+      s.charCodeAt(i + 1) <= 0xdfff;
+    i += pair ? 2 : 1;
+    --n;
+  }
+  return i + n;
+}
+
+/**
  * Translates a diff of strings split by str.splitlines() to a diff of the
  * joined multiline string
  */
@@ -128,9 +150,14 @@ export function flattenStringDiff(
     if (e.op === 'patch') {
       let pdiff = e.diff as IDiffArrayEntry[];
       if (pdiff !== null) {
+        let line = val[e.key];
         for (let p of pdiff) {
           let d = shallowCopy(p);
-          d.key += lineOffset;
+          let start = codePointOffset(line, p.key);
+          if (d.op === 'removerange') {
+            d.length = codePointOffset(line, p.key + d.length) - start;
+          }
+          d.key = lineOffset + start;
           flattened.push({ e: d, line: e.key, rank: 1 });
         }
       }
